@@ -425,4 +425,15 @@ def r_idioms(ctx):
     repo_idioms(ctx, "C02.R6", ('connection', 'crypto', 'context'))
 
 
-RULES = [("C02.R1", r1), ("C02.R2", r2), ("C02.R3", r3), ("C02.R4", r4), ("C02.R5", r5), ("C02.R6", r_idioms)]
+def r7(ctx):
+    """the signature helpers are thin wrappers around the library's ECDSA verify / sign"""
+    from .common import thin_wrapper
+    thin_wrapper(ctx, "C02.R7", "crypto:EllipticCurvePublicKey.verify", "verify", (1, 2), returns=False)
+    thin_wrapper(ctx, "C02.R7", "crypto:EllipticCurvePrivateKey.sign", "sign", (1,))
+    v = ctx.fn("crypto:EllipticCurvePublicKey.verify")
+    s_ = ctx.fn("crypto:EllipticCurvePrivateKey.sign")
+    for fi in (v, s_):
+        c = [x for x in walk_own(fi.node) if isinstance(x, ast.Call) and isinstance(x.func, ast.Attribute) and x.func.attr in ("verify", "sign")][0]
+        ctx.check(norm(c.func.value) == "self.key" and norm(c.args[-1]) == "ec.ECDSA(hashes.SHA256())", "C02.R7", fi, "%s uses self.key with ECDSA/SHA-256" % fi.name, witness=norm(c))
+
+RULES = [("C02.R1", r1), ("C02.R2", r2), ("C02.R3", r3), ("C02.R4", r4), ("C02.R5", r5), ("C02.R6", r_idioms), ("C02.R7", r7)]
